@@ -59,12 +59,13 @@ Cmp(pt, v) == CASE pt.p = "eq" -> v = pt.v [] pt.p = "ne" -> v # pt.v [] OTHER -
 BoundNames(arm) == { arm[i].x : i \in { j \in 1..Len(arm) : arm[j].p \in {"bind", "at"} } }
 Env(arm, args) == [x \in BoundNames(arm) |-> args[CHOOSE i \in 1..Len(arm) : arm[i].p \in {"bind", "at"} /\ arm[i].x = x]]
 
-\* guards: none | ge x k | or2 x k1 k2 (x == k1 || x == k2) | ne2 x y
+\* guards: none | ge x k | or2 x k1 k2 (x == k1 || x == k2) | ne2 x y | ext v (a condition on outside state, no binding involved)
 GuardAtoms(g) == CASE g.g = "or2" -> 2 [] OTHER -> 1
 EvalG(g, env) ==
   CASE g.g = "none" -> TRUE
     [] g.g = "ge"   -> env[g.x] >= g.k
     [] g.g = "or2"  -> env[g.x] = g.k1 \/ env[g.x] = g.k2
+    [] g.g = "ext"  -> g.v
     [] OTHER        -> env[g.x] # env[g.y]
 
 ArmPats(arm, args) == \A i \in 1..Len(arm) : Sem(arm[i], args[i])
